@@ -280,7 +280,8 @@ class CodegenHarness(Harness):
             else:
                 x, mem, steps = _c05.emulate(b, o, x, mem, on_ext, MAX_STEPS, wild, allowed)
         except _c05.MachineFault as e:
-            return dict(status="fault", error=str(e), premise=premise)
+            self.last_fault = str(e)      # (not part of the outcome: the integer and the z3 run may word the same fault differently)
+            return dict(status="fault", premise=premise)
         ret = None
         if b.rv_reg is not None:
             ret = out(_c05.reg_width_value(o, x[b.rv_reg], _bits(f.return_ty)))
